@@ -26,7 +26,8 @@ from ..enum import collide as _collide  # noqa: E402
 
 # pairs of ids whose hash keys ('' / 'salt1' / 's' / 'k' + id) collide under crc32 and have equal length, adjacent in the list
 IDS = list(range(40)) + [f"u{i}@x.org" for i in range(16)] + ["", "é", 1.5, None, True, "1", 1, -1] + \
-    [x for _pre, a, b in _collide.crc32_id_pairs(prefixes=("", "salt1", "s", "k"), n=3) for x in (a, b)]
+    [x for _pre, a, b in _collide.crc32_id_pairs(prefixes=("", "salt1", "s", "k"), n=3) for x in (a, b)] + \
+    _collide.near_twin_values()  # distinct ids that a tidying step (strip, case fold, NFC/NFKC, int()) would identify
 MULTI = (("A", "1"), ("B", "2"), ("C", "3"))
 
 
@@ -199,7 +200,8 @@ def check_base(acc, tag, ast, tier):
         acc.samples.append({"text": short(text, 200), "ids": len(IDS), "transformations": ["extra-kwarg", "rename", "decl-order", "kwarg-order", "cond-values", "omitted", "salt"]})
 
 
-TWIN_SALTS = [("p\x0cq", "p\x0c q"), ("p\rq", "p\r q"), ("p\u2028q", "p\x85q"), ("http://a/x", "http://a/y"), ("x//a", "x//b"), ("S", "s"), ("s ", "s"), ("é", "e\u0301"), ("a  b", "a b"), ("pricing'", "pricing"), ("'p'", "p"), ('"p"', "p"), ("'", ""), ("home page", "homepage")]
+TWIN_SALTS = [("p\x0cq", "p\x0c q"), ("p\rq", "p\r q"), ("p\u2028q", "p\x85q"), ("http://a/x", "http://a/y"), ("x//a", "x//b"), ("S", "s"), ("s ", "s"), ("é", "e\u0301"), ("a  b", "a b"), ("pricing'", "pricing"), ("'p'", "p"), ('"p"', "p"), ("'", ""), ("home page", "homepage")] + \
+    [(a, b) for a, b in _collide.near_twin_pairs() if "\n" not in a + b and "\x00" not in a + b]
 
 
 def _work(units):
